@@ -24,6 +24,20 @@ add('C03', 'exploration', 'bounded-exhaustive enumeration of (recorded program, 
     '(alias, per-alias ordinal) -> arguments, plus the operation entry, must equal the maps of a reference interpreter entry by entry.',
     'Reference interpreter (mc/progs.py ref/ref_replay) encodes the documented capture semantics; values limited to the enumerated universe; in-memory cassette.')
 
+add('C01', 'model_checking', 'bounded-exhaustive enumeration of recorder programs on the real recorder x every cassette type, compared with the recording run and a reference interpreter',
+    'Every program up to the length bound over a 25-letter alphabet (all decorator styles, resolvers, capture subsets, handlers, fallback, nesting, '
+    'raising bodies, worker thread, type-colliding arguments, copy-on-interception with post-capture mutation, long tails) is recorded on the real '
+    'recorder, saved, fetched from a fresh cassette object of each type (memory / file / S3 on a fake bucket) and replayed: every interception must '
+    'observe what it observed while recording, no body may run, playback outputs must equal recorded outputs one for one. Exhaustive within the bound.',
+    'Values limited to the measured faithful domain of the pinned jsonpickle; S3 through an in-memory fake of the six boto3 calls the facade uses; '
+    'concurrently issued same-alias outputs excluded (ordinal is schedule dependent by design).')
+add('C02', 'exploration', 'exhaustive product of missing-key options x present/absent probe programs x replays on the real recorder vs reference policy',
+    'Full product of the missing-key options (5 fallback kinds x run-original x 9 substitutes incl. falsy and callable; fail-on-missing x defaults) over '
+    'probe programs whose calls are present or absent in the recording, with recording enabled/disabled, two consecutive replays, replays after a replay '
+    'that failed with an escaping missing-key error, nested interceptions under run-original, and unknown ids on every cassette; observations, executed '
+    'bodies, cassette traffic and store bytes are compared with the documented policy order.',
+    'Policy order as documented (fallbacks, run original, substitute, else RecordingKeyError); full product on the in-memory cassette, slice on file and S3(fake).')
+
 NOT_YET = {}
 
 
